@@ -96,7 +96,12 @@ func GRPCExamples() check.Family {
 	return check.Family{Name: "grpc-examples", Cases: spec.GRPCStreams(), PerService: 4, PerDesign: 1, CompileOnly: true}
 }
 
+// CrossService: two or three services per design whose methods bear the same names.
+func CrossService() check.Family {
+	return check.Family{Name: "l2-cross-service", Cases: spec.L2CrossService(), PerService: 1, PerDesign: 3}
+}
+
 // All lists every family (C01, C07, C09 run over all of them).
 func All(thorough bool) []check.Family {
-	return []check.Family{PayloadSingle(), PayloadPair(thorough), ResultSingle(), ResultPair(thorough), ResultStatus(), PayloadValidation(thorough), ResultValidation(thorough), Errors(), Security(thorough), Views(thorough), Features(), StressAttrs(thorough), StressNames(thorough), PayloadValidationPairs(), ResultValidationPairs(), GRPCExamples()}
+	return []check.Family{PayloadSingle(), PayloadPair(thorough), ResultSingle(), ResultPair(thorough), ResultStatus(), PayloadValidation(thorough), ResultValidation(thorough), Errors(), Security(thorough), Views(thorough), Features(), StressAttrs(thorough), StressNames(thorough), PayloadValidationPairs(), ResultValidationPairs(), GRPCExamples(), CrossService()}
 }
